@@ -135,6 +135,7 @@ type AfterClause struct {
 	Nth    int
 	Name   string
 	Result int
+	Init   bool // "init zero": the name holds the zero value until the call is made (a ghost variable; it is havoc'd at the head of a cut loop containing the call)
 }
 
 // AtClause: an intermediate assertion or rewrite attached to a program point
@@ -145,6 +146,7 @@ type AtClause struct {
 	Loop    int    // "callee@Lk": every call to callee inside loop k (0: select by ordinal Nth)
 	Assume  bool   // "assume": the clause is taken as a hypothesis at the call (listed as an assumption), not proved
 	Rewrite string // variable name for "rewrite name := expr"
+	After   bool   // "after call ... assume|assert": evaluated in the state after the call returned
 	C       Clause
 }
 
@@ -545,7 +547,22 @@ func parseContractFile(path string, cs *ContractSet) error {
 				cur.ReplayTpl = rest
 			case "after":
 				// after call <callee>[#n] bind NAME rK
+				// after call <callee>[#n] assume|assert [label] expr
 				fs := strings.Fields(rest)
+				if len(fs) >= 4 && fs[0] == "call" && (fs[2] == "assume" || fs[2] == "assert") {
+					ac, err := parseAtClause(rest, path, l.line, len(cur.Ats), mkClause)
+					if err != nil {
+						return err
+					}
+					ac.After = true
+					cur.Ats = append(cur.Ats, ac)
+					break
+				}
+				initZero := false
+				if len(fs) == 7 && fs[5] == "init" && fs[6] == "zero" {
+					initZero = true
+					fs = fs[:5]
+				}
 				if len(fs) != 5 || fs[0] != "call" || fs[2] != "bind" || !strings.HasPrefix(fs[4], "r") {
 					return fmt.Errorf("%s:%d: after call <callee>[#n] bind NAME rK", path, l.line)
 				}
@@ -555,50 +572,13 @@ func parseContractFile(path string, cs *ContractSet) error {
 					ac.Nth, _ = strconv.Atoi(fs[1][i+1:])
 				}
 				ac.Result, _ = strconv.Atoi(fs[4][1:])
+				ac.Init = initZero
 				cur.Afters = append(cur.Afters, ac)
 			case "at":
-				// at call <callee>[#n] assert [label] expr | rewrite name := expr
-				fs := strings.SplitN(rest, " ", 4)
-				if len(fs) < 4 || fs[0] != "call" {
-					return fmt.Errorf("%s:%d: at call <callee> assert|rewrite ...", path, l.line)
-				}
-				ac := &AtClause{Callee: fs[1], Nth: 1}
-				if i := strings.Index(fs[1], "#"); i >= 0 {
-					ac.Callee = fs[1][:i]
-					ac.Nth, _ = strconv.Atoi(fs[1][i+1:])
-				} else if i := strings.Index(fs[1], "@L"); i >= 0 {
-					ac.Callee = fs[1][:i]
-					ac.Loop, _ = strconv.Atoi(fs[1][i+2:])
-					if ac.Loop <= 0 {
-						return fmt.Errorf("%s:%d: at call callee@L<loop ordinal>", path, l.line)
-					}
-				}
-				body := strings.TrimSpace(fs[3])
-				switch fs[2] {
-				case "assert":
-				case "assume":
-					ac.Assume = true
-				case "rewrite":
-					j := strings.Index(body, ":=")
-					if j < 0 {
-						return fmt.Errorf("%s:%d: rewrite name := expr", path, l.line)
-					}
-					ac.Rewrite = strings.TrimSpace(body[:j])
-					body = strings.TrimSpace(body[j+2:])
-				default:
-					return fmt.Errorf("%s:%d: at call ... assert|assume|rewrite", path, l.line)
-				}
-				cl, err := mkClause(body, l.line)
+				ac, err := parseAtClause(rest, path, l.line, len(cur.Ats), mkClause)
 				if err != nil {
 					return err
 				}
-				if cl.Label == "" {
-					cl.Label = fmt.Sprintf("at%d", len(cur.Ats)+1)
-					if ac.Rewrite != "" {
-						cl.Label = "rw." + ac.Rewrite
-					}
-				}
-				ac.C = cl
 				cur.Ats = append(cur.Ats, ac)
 			case "loop":
 				fs := strings.SplitN(rest, " ", 3)
@@ -978,4 +958,51 @@ func parseSpecExpr(s string) (ast.Expr, error) {
 		return nil, fmt.Errorf("cannot parse %q: %v", r, err)
 	}
 	return ex, nil
+}
+
+// parseAtClause parses the text after "at" / "after" of a call-site clause.
+func parseAtClause(rest, path string, line, nAts int, mkClause func(string, int) (Clause, error)) (*AtClause, error) {
+				// at call <callee>[#n] assert [label] expr | rewrite name := expr
+				fs := strings.SplitN(rest, " ", 4)
+				if len(fs) < 4 || fs[0] != "call" {
+					return nil, fmt.Errorf("%s:%d: at call <callee> assert|rewrite ...", path, line)
+				}
+				ac := &AtClause{Callee: fs[1], Nth: 1}
+				if i := strings.Index(fs[1], "#"); i >= 0 {
+					ac.Callee = fs[1][:i]
+					ac.Nth, _ = strconv.Atoi(fs[1][i+1:])
+				} else if i := strings.Index(fs[1], "@L"); i >= 0 {
+					ac.Callee = fs[1][:i]
+					ac.Loop, _ = strconv.Atoi(fs[1][i+2:])
+					if ac.Loop <= 0 {
+						return nil, fmt.Errorf("%s:%d: at call callee@L<loop ordinal>", path, line)
+					}
+				}
+				body := strings.TrimSpace(fs[3])
+				switch fs[2] {
+				case "assert":
+				case "assume":
+					ac.Assume = true
+				case "rewrite":
+					j := strings.Index(body, ":=")
+					if j < 0 {
+						return nil, fmt.Errorf("%s:%d: rewrite name := expr", path, line)
+					}
+					ac.Rewrite = strings.TrimSpace(body[:j])
+					body = strings.TrimSpace(body[j+2:])
+				default:
+					return nil, fmt.Errorf("%s:%d: at call ... assert|assume|rewrite", path, line)
+				}
+				cl, err := mkClause(body, line)
+				if err != nil {
+					return nil, err
+				}
+				if cl.Label == "" {
+					cl.Label = fmt.Sprintf("at%d", nAts+1)
+					if ac.Rewrite != "" {
+						cl.Label = "rw." + ac.Rewrite
+					}
+				}
+				ac.C = cl
+				return ac, nil
 }
